@@ -18,6 +18,7 @@ import (
 	"io"
 	"net"
 	"os"
+	"strings"
 	"sync/atomic"
 	"time"
 )
@@ -333,6 +334,18 @@ func (h *vfE2H) doBusyPause() {
 	}
 	for round := 0; round < 3 && !h.aborted; round++ {
 		base := atomic.LoadUint64(&ch.messageCount)
+		// audit A10: the round as a schedule of Nsq.Model.TopicPause (cached enable bit | flag store | hand-shake);
+		// one token per micro-step, the implementation's answer is + (happened) / - (refused) per token
+		tpOps, tpImpl := []string{"m1", "u", "s"}, []string{"+", "+", "+"}
+		tp1 := func(tok string, ok bool) {
+			tpOps = append(tpOps, tok)
+			if ok {
+				tpImpl = append(tpImpl, "+")
+			} else {
+				tpImpl = append(tpImpl, "-")
+			}
+		}
+		nextFan := 1
 		ch.exitMutex.Lock()
 		locked := true
 		unlock := func() {
@@ -351,6 +364,12 @@ func (h *vfE2H) doBusyPause() {
 			return
 		}
 		// the pump now sits inside ch.PutMessage with one message in its hands, 5 wait in the topic queue
+		for i := 1; i <= 6; i++ {
+			tp1(fmt.Sprintf("p%d", i), true)
+		}
+		tp1("f1", true)
+		nextFan = 2
+		tp1("S1", true)
 		ret := make(chan bool, 1)
 		go func() { tp.Pause(); ret <- true }()
 		early := false
@@ -379,10 +398,21 @@ func (h *vfE2H) doBusyPause() {
 		if !tp.IsPaused() {
 			h.fail("topic-pause", "busypause: Pause() returned but the topic is not paused")
 		}
+		// messages 2..(c0-base) were handed over between the flag store and the return of Pause()
+		for ; uint64(nextFan) <= c0-base && nextFan <= 6; nextFan++ {
+			tp1(fmt.Sprintf("f%d", nextFan), true)
+		}
+		tp1("A", true) // Pause() returned
 		pub(2) // a paused topic keeps accepting publishes
+		tp1("p7", true)
+		tp1("p8", true)
 		time.Sleep(40 * time.Millisecond)
 		c1 := atomic.LoadUint64(&ch.messageCount)
+		if nextFan <= 8 {
+			tp1(fmt.Sprintf("f%d", nextFan), c1 > c0) // did the pump take one more although Pause() had returned?
+		}
 		if c1 > c0 {
+			h.emit("tpause "+strings.Join(tpOps, " "), strings.Join(tpImpl, ""))
 			h.fail("topic-pause", "Topic.Pause() had returned (topic paused: flag set, pump busy with a backlog of 5 when it was issued) — yet %d more message(s) were handed to channel c afterwards (message_count %d -> %d of %d published; topic depth %d)",
 				c1-c0, c0, c1, total, tp.Depth())
 			h.aborted = true
@@ -395,7 +425,14 @@ func (h *vfE2H) doBusyPause() {
 		for i := 0; i < 8000 && atomic.LoadUint64(&ch.messageCount) < total; i++ {
 			time.Sleep(250 * time.Microsecond)
 		}
-		if got := atomic.LoadUint64(&ch.messageCount); got != total {
+		got := atomic.LoadUint64(&ch.messageCount)
+		tp1("S0", true)
+		tp1("A", true)
+		for ; nextFan <= 8; nextFan++ {
+			tp1(fmt.Sprintf("f%d", nextFan), got == total)
+		}
+		h.emit("tpause "+strings.Join(tpOps, " "), strings.Join(tpImpl, ""))
+		if got != total {
 			h.fail("settle-stall", "busypause: after UnPause() only %d of %d published messages reached channel c within 2 s (topic depth %d, paused=%v)",
 				got, total, tp.Depth(), tp.IsPaused())
 			h.aborted = true
